@@ -1,7 +1,7 @@
 (* C12 - property theorems.  Nothing but statements, `exact <lemma>` and
    Print Assumptions.  Hypotheses: sizes >= 1 (what the library accepts). *)
-From Coq Require Import String ZArith List Bool QArith.
-From HD Require Import Base.Val C12_Model C12_Proofs.
+From Coq Require Import String ZArith List Bool QArith Permutation.
+From HD Require Import Base.Val C12_Model C12_Proofs C12_Proofs_Ext.
 Import ListNotations.
 Open Scope Z_scope.
 
@@ -103,3 +103,274 @@ Example C12_example : wf_matrix [[1;2;3];[4;5;6];[7;8;9];[10;11;12];[13;14;15]] 
   get_tile_array [[1;2;3];[4;5;6];[7;8;9];[10;11;12];[13;14;15]] 5 3 5 3 2 2 true = Ok [[15;0];[0;0]].
 Proof. split; [split; [reflexivity|intros row H; repeat (destruct H as [<-|H]; [reflexivity|]); contradiction]|split; reflexivity]. Qed.
 Print Assumptions C12_example.
+
+(* ====================================================================== *)
+(* extension: full-tiling predicate against a matrix                        *)
+(* ====================================================================== *)
+Theorem C12_tiled_full_sound : forall ps th tw, 1 <= th -> 1 <= tw -> ps <> [] ->
+  are_tiled_full ps th tw = true ->
+  1 <= max_from (-1) (map fst ps) /\ 1 <= max_from (-1) (map snd ps) /\
+  ps = grid_rc (max_from (-1) (map fst ps)) (max_from (-1) (map snd ps)) th tw.
+Proof. exact tiled_full_sound. Qed.
+Print Assumptions C12_tiled_full_sound.
+
+Theorem C12_tiled_full_grid_iff : forall ps R C th tw, 1 <= R -> 1 <= C -> 1 <= th -> 1 <= tw ->
+  (are_tiled_full ps th tw = true /\
+   max_from (-1) (map fst ps) = last_off R th /\ max_from (-1) (map snd ps) = last_off C tw)
+  <-> ps = grid_rc R C th tw.
+Proof. exact tiled_full_grid_iff. Qed.
+Print Assumptions C12_tiled_full_grid_iff.
+
+Theorem C12_tiled_full_accepts_offsets : forall R C th tw, 1 <= R -> 1 <= C -> 1 <= th -> 1 <= tw ->
+  are_tiled_full (map swap (tile_offsets R C th tw)) th tw = true.
+Proof. exact tiled_full_accepts_offsets. Qed.
+Print Assumptions C12_tiled_full_accepts_offsets.
+
+Theorem C12_tiled_full_perm_unique : forall ps ps' th tw, Permutation ps ps' ->
+  are_tiled_full ps th tw = true -> are_tiled_full ps' th tw = true -> ps = ps'.
+Proof. exact tiled_full_perm_unique. Qed.
+Print Assumptions C12_tiled_full_perm_unique.
+
+Theorem C12_tiled_full_refuses_permuted : forall ps R C th tw, 1 <= R -> 1 <= C -> 1 <= th -> 1 <= tw ->
+  Permutation ps (grid_rc R C th tw) -> ps <> grid_rc R C th tw -> are_tiled_full ps th tw = false.
+Proof. exact tiled_full_refuses_permuted. Qed.
+Print Assumptions C12_tiled_full_refuses_permuted.
+
+Theorem C12_tiled_full_refuses_incomplete : forall ps R C th tw, 1 <= R -> 1 <= C -> 1 <= th -> 1 <= tw ->
+  max_from (-1) (map fst ps) = last_off R th -> max_from (-1) (map snd ps) = last_off C tw ->
+  ps <> grid_rc R C th tw -> are_tiled_full ps th tw = false.
+Proof. exact tiled_full_refuses_incomplete. Qed.
+Print Assumptions C12_tiled_full_refuses_incomplete.
+
+(* ====================================================================== *)
+(* extension: per-frame data of the TILED_FULL organisation                 *)
+(* ====================================================================== *)
+Theorem C12_iter_structure : forall nch nfp R C th tw x y rc cc spr spc sbs,
+  1 <= R -> 1 <= C -> 1 <= th -> 1 <= tw ->
+  iter_tiled_full nch nfp R C th tw x y rc cc spr spc sbs =
+  flat_map (fun ch => flat_map (fun k =>
+      map (fun o => (ch + 1, k + 1, o, pix2ref (V3 x y (inject_Z k * sbs)) rc cc spr spc (fst o - 1) (snd o - 1)))
+          (grid R C th tw)) (zrange nfp)) (zrange nch).
+Proof. exact iter_structure. Qed.
+Print Assumptions C12_iter_structure.
+
+Theorem C12_iter_count : forall nch nfp R C th tw x y rc cc spr spc sbs,
+  0 <= nch -> 0 <= nfp -> 1 <= R -> 1 <= C -> 1 <= th -> 1 <= tw ->
+  Z.of_nat (length (iter_tiled_full nch nfp R C th tw x y rc cc spr spc sbs)) =
+  nch * nfp * (cdiv R th * cdiv C tw).
+Proof. exact iter_count. Qed.
+Print Assumptions C12_iter_count.
+
+Theorem C12_iter_membership : forall nch nfp R C th tw x y rc cc spr spc sbs ch k o p,
+  1 <= R -> 1 <= C -> 1 <= th -> 1 <= tw ->
+  (In (ch, k, o, p) (iter_tiled_full nch nfp R C th tw x y rc cc spr spc sbs) <->
+   1 <= ch <= nch /\ 1 <= k <= nfp /\ In o (grid R C th tw) /\
+   p = pix2ref (V3 x y (inject_Z (k - 1) * sbs)) rc cc spr spc (fst o - 1) (snd o - 1)).
+Proof. exact iter_membership. Qed.
+Print Assumptions C12_iter_membership.
+
+Theorem C12_iter_frame_index : forall nch nfp R C th tw x y rc cc spr spc sbs ch k j o,
+  1 <= R -> 1 <= C -> 1 <= th -> 1 <= tw -> 0 <= ch < nch -> 0 <= k < nfp ->
+  nth_error (grid R C th tw) j = Some o ->
+  nth_error (iter_tiled_full nch nfp R C th tw x y rc cc spr spc sbs)
+            ((Z.to_nat ch * Z.to_nat nfp + Z.to_nat k) * length (grid R C th tw) + j) =
+  Some (ch + 1, k + 1, o, pix2ref (V3 x y (inject_Z k * sbs)) rc cc spr spc (fst o - 1) (snd o - 1)).
+Proof. exact iter_frame_index. Qed.
+Print Assumptions C12_iter_frame_index.
+
+Theorem C12_iter_ds_refuses : forall d,
+  iter_tiled_full_ds d = Err "ValueError"%string <-> (ds_sop d = SC_OTHER \/ ds_dim_org d <> Some true).
+Proof. exact iter_ds_refuses. Qed.
+Print Assumptions C12_iter_ds_refuses.
+
+Theorem C12_iter_ds_membership : forall d l ch k o p, ds_sizes_ok d -> iter_tiled_full_ds d = Ok l ->
+  (In (ch, k, o, p) l <->
+   In ch (ds_channels d) /\ 1 <= k <= opt_default 1 (ds_nfp d) /\ In o (ds_grid d) /\ p = ds_pos d (k - 1) o).
+Proof. exact iter_ds_membership. Qed.
+Print Assumptions C12_iter_ds_membership.
+
+Theorem C12_iter_ds_frame : forall d l i k j ch o, ds_sizes_ok d -> iter_tiled_full_ds d = Ok l ->
+  nth_error (ds_channels d) i = Some ch -> 0 <= k < opt_default 1 (ds_nfp d) ->
+  nth_error (ds_grid d) j = Some o ->
+  nth_error l ((i * Z.to_nat (opt_default 1%Z (ds_nfp d)) + Z.to_nat k) * length (ds_grid d) + j)
+  = Some (ch, k + 1, o, ds_pos d k o).
+Proof. exact iter_ds_frame. Qed.
+Print Assumptions C12_iter_ds_frame.
+
+Theorem C12_iter_ds_count : forall d l, ds_sizes_ok d -> iter_tiled_full_ds d = Ok l ->
+  length l = (length (ds_channels d) * (Z.to_nat (opt_default 1%Z (ds_nfp d)) * length (ds_grid d)))%nat.
+Proof. exact iter_ds_count. Qed.
+Print Assumptions C12_iter_ds_count.
+
+Theorem C12_ds_channels : forall d ch, In ch (ds_channels d) <->
+  match ds_sop d with
+  | SC_SEG | SC_LABELMAP_SEG =>
+      if ds_labelmap d then ch = None else exists c, ch = Some c /\ 1 <= c <= ds_nseg d
+  | _ => exists c, ch = Some c /\ 1 <= c <= opt_default (ds_len_ops d) (ds_nop d)
+  end.
+Proof. exact ds_channels_spec. Qed.
+Print Assumptions C12_ds_channels.
+
+Theorem C12_slide_per_frame_frame : forall d l i k j ch o, ds_sizes_ok d -> slide_per_frame d = Ok l ->
+  nth_error (ds_channels d) i = Some ch -> 0 <= k < opt_default 1 (ds_nfp d) ->
+  nth_error (ds_grid d) j = Some o ->
+  nth_error l ((i * Z.to_nat (opt_default 1%Z (ds_nfp d)) + Z.to_nat k) * length (ds_grid d) + j)
+  = Some (o, ds_pos d k o).
+Proof. exact slide_per_frame_frame. Qed.
+Print Assumptions C12_slide_per_frame_frame.
+
+Theorem C12_slide_per_frame_count : forall d l, ds_sizes_ok d -> slide_per_frame d = Ok l ->
+  length l = (length (ds_channels d) * (Z.to_nat (opt_default 1%Z (ds_nfp d)) * length (ds_grid d)))%nat.
+Proof. exact slide_per_frame_count. Qed.
+Print Assumptions C12_slide_per_frame_count.
+
+Theorem C12_single_tile_helper_agrees_3d : forall nch nfp R C th tw x y rc cc spr spc sbs ch k a b,
+  1 <= R -> 1 <= C -> 1 <= th -> 1 <= tw -> 1 <= ch <= nch -> 1 <= k <= nfp ->
+  0 <= a < cdiv R th -> 0 <= b < cdiv C tw ->
+  exists o p, plane_position_tiled_full (a + 1) (b + 1) x y th tw rc cc spr spc (Some (k, sbs)) = Ok (o, p) /\
+              o = (b * tw + 1, a * th + 1) /\
+              In (ch, k, o, p) (iter_tiled_full nch nfp R C th tw x y rc cc spr spc sbs).
+Proof. exact plane_position_agrees_iter. Qed.
+Print Assumptions C12_single_tile_helper_agrees_3d.
+
+Theorem C12_iter_frames_from_helper : forall nch nfp R C th tw x y rc cc spr spc sbs ch k o p,
+  1 <= R -> 1 <= C -> 1 <= th -> 1 <= tw ->
+  In (ch, k, o, p) (iter_tiled_full nch nfp R C th tw x y rc cc spr spc sbs) ->
+  exists a b, 0 <= a < cdiv R th /\ 0 <= b < cdiv C tw /\
+    plane_position_tiled_full (a + 1) (b + 1) x y th tw rc cc spr spc (Some (k, sbs)) = Ok (o, p).
+Proof. exact iter_frames_from_helper. Qed.
+Print Assumptions C12_iter_frames_from_helper.
+
+(* ====================================================================== *)
+(* extension: guards of the checked entry points, affine-matrix form        *)
+(* ====================================================================== *)
+Theorem C12_positions_guards_ok : forall npos nori nsp R C th tw pos rc cc spr spc l,
+  tile_positions_chk npos nori nsp R C th tw pos rc cc spr spc = Ok l <->
+  (npos = 3 /\ nori = 6 /\ nsp = 2 /\ th <> 0 /\ tw <> 0 /\ (0 < spr /\ 0 < spc)%Q /\
+   l = tile_positions R C th tw pos rc cc spr spc).
+Proof. exact tile_positions_chk_ok. Qed.
+Print Assumptions C12_positions_guards_ok.
+
+Theorem C12_positions_guards_errors : forall npos nori nsp R C th tw pos rc cc spr spc,
+  (tile_positions_chk npos nori nsp R C th tw pos rc cc spr spc = Err "ZeroDivisionError"%string <->
+   npos = 3 /\ nori = 6 /\ nsp = 2 /\ (th = 0 \/ tw = 0)) /\
+  (tile_positions_chk npos nori nsp R C th tw pos rc cc spr spc = Err "ValueError"%string <->
+   npos <> 3 \/ nori <> 6 \/ nsp <> 2 \/ (th <> 0 /\ tw <> 0 /\ bad_spacing spr spc = true)).
+Proof. exact tile_positions_chk_errors. Qed.
+Print Assumptions C12_positions_guards_errors.
+
+Theorem C12_single_tile_helper_errors : forall ri ci x y th tw rc cc spr spc sidx sbs,
+  (plane_position_tiled_full2 ri ci x y th tw rc cc spr spc sidx sbs = Err "TypeError"%string <->
+   1 <= ri /\ 1 <= ci /\ ((sidx = None /\ sbs <> None) \/ (sidx <> None /\ sbs = None))) /\
+  (plane_position_tiled_full2 ri ci x y th tw rc cc spr spc sidx sbs = Err "ValueError"%string <->
+   ri < 1 \/ ci < 1 \/ (((sidx = None /\ sbs = None) \/ (sidx <> None /\ sbs <> None)) /\ bad_spacing spr spc = true)).
+Proof. exact plane_position2_errors. Qed.
+Print Assumptions C12_single_tile_helper_errors.
+
+Theorem C12_single_tile_helper_checked : forall ri ci x y th tw rc cc spr spc k s,
+  1 <= ri -> 1 <= ci -> bad_spacing spr spc = false ->
+  plane_position_tiled_full2 ri ci x y th tw rc cc spr spc (Some k) (Some s) =
+    plane_position_tiled_full ri ci x y th tw rc cc spr spc (Some (k, s)) /\
+  plane_position_tiled_full2 ri ci x y th tw rc cc spr spc None None =
+    plane_position_tiled_full ri ci x y th tw rc cc spr spc None.
+Proof. exact plane_position2_ok. Qed.
+Print Assumptions C12_single_tile_helper_checked.
+
+Theorem C12_affine_is_transform : forall pos rc cc spr spc c r,
+  veq (affine_apply (affine_matrix pos rc cc spr spc) c r) (pix2ref pos rc cc spr spc c r).
+Proof. exact affine_is_pix2ref. Qed.
+Print Assumptions C12_affine_is_transform.
+
+(* ====================================================================== *)
+(* extension: tile shapes, unpadded tiles, the round trip as a list identity *)
+(* ====================================================================== *)
+Theorem C12_tile_shape_padded : forall M R C ro co th tw T, wf_matrix M R C -> 0 <= th -> 0 <= tw ->
+  get_tile_array M R C ro co th tw true = Ok T -> wf_matrix T th tw.
+Proof. exact tile_shape_padded. Qed.
+Print Assumptions C12_tile_shape_padded.
+
+Theorem C12_tile_shape_unpadded : forall M R C ro co th tw T, wf_matrix M R C -> 0 <= th -> 0 <= tw ->
+  get_tile_array M R C ro co th tw false = Ok T ->
+  wf_matrix T (Z.min th (R - ro + 1)) (Z.min tw (C - co + 1)).
+Proof. exact tile_shape_unpadded. Qed.
+Print Assumptions C12_tile_shape_unpadded.
+
+Theorem C12_tile_cell_unpadded : forall M R C ro co th tw a b T, wf_matrix M R C ->
+  0 <= a < Z.min th (R - ro + 1) -> 0 <= b < Z.min tw (C - co + 1) ->
+  get_tile_array M R C ro co th tw false = Ok T ->
+  cell T a b = cell M (ro - 1 + a) (co - 1 + b).
+Proof. exact tile_cell_unpadded. Qed.
+Print Assumptions C12_tile_cell_unpadded.
+
+Theorem C12_cut_paste_roundtrip : forall M R C th tw, wf_matrix M R C -> 1 <= R -> 1 <= C -> 1 <= th -> 1 <= tw ->
+  paste_all R C th tw (cut_all M R C th tw true) = M.
+Proof. exact cut_paste_roundtrip. Qed.
+Print Assumptions C12_cut_paste_roundtrip.
+
+Theorem C12_cut_all_tiles : forall M R C th tw o t, wf_matrix M R C -> 1 <= R -> 1 <= C -> 1 <= th -> 1 <= tw ->
+  In (o, t) (cut_all M R C th tw true) ->
+  In o (grid R C th tw) /\ exists T, t = Ok T /\ wf_matrix T th tw.
+Proof. exact cut_all_tiles. Qed.
+Print Assumptions C12_cut_all_tiles.
+
+(* ====================================================================== *)
+(* the property sentence as ONE theorem                                     *)
+(* ====================================================================== *)
+Theorem C12_one_tiling : forall R C th tw nch nfp x y rc cc spr spc sbs M,
+  1 <= R -> 1 <= C -> 1 <= th -> 1 <= tw -> 0 <= nch -> 0 <= nfp -> wf_matrix M R C ->
+  tile_offsets R C th tw = grid R C th tw /\
+  map (fun t => ((fst t - 1) * tw + 1, (snd t - 1) * th + 1)) (tile_pixel_matrix R C th tw) = grid R C th tw /\
+  map fst (tile_positions R C th tw (V3 x y 0) rc cc spr spc) = grid R C th tw /\
+  iter_tiled_full nch nfp R C th tw x y rc cc spr spc sbs =
+    flat_map (fun ch => flat_map (fun k =>
+      map (fun o => (ch + 1, k + 1, o, pix2ref (V3 x y (inject_Z k * sbs)) rc cc spr spc (fst o - 1) (snd o - 1)))
+          (grid R C th tw)) (zrange nfp)) (zrange nch) /\
+  (forall ps, (are_tiled_full ps th tw = true /\ max_from (-1) (map fst ps) = last_off R th /\
+               max_from (-1) (map snd ps) = last_off C tw) <-> ps = map swap (grid R C th tw)) /\
+  (forall pc pr, In (pc, pr) (grid R C th tw) <->
+     exists a b, 0 <= a < cdiv R th /\ 0 <= b < cdiv C tw /\ pc = b * tw + 1 /\ pr = a * th + 1) /\
+  NoDup (grid R C th tw) /\
+  Z.of_nat (length (grid R C th tw)) = cdiv R th * cdiv C tw /\
+  Z.of_nat (length (iter_tiled_full nch nfp R C th tw x y rc cc spr spc sbs)) = nch * nfp * (cdiv R th * cdiv C tw) /\
+  (forall r c, 1 <= r <= R -> 1 <= c <= C ->
+     exists! o, In o (grid R C th tw) /\ snd o <= r < snd o + th /\ fst o <= c < fst o + tw) /\
+  (forall pos o p, In (o, p) (tile_positions R C th tw pos rc cc spr spc) ->
+     p = pix2ref pos rc cc spr spc (fst o - 1) (snd o - 1)) /\
+  paste_all R C th tw (cut_all M R C th tw true) = M /\
+  (forall o t, In (o, t) (cut_all M R C th tw true) -> exists T, t = Ok T /\ wf_matrix T th tw).
+Proof. exact one_tiling. Qed.
+Print Assumptions C12_one_tiling.
+
+(* non-vacuity of the extension *)
+Example C12_example_roundtrip : wf_matrix exM 5 3 /\
+  map fst (cut_all exM 5 3 2 2 true) = [(1,1);(3,1);(1,3);(3,3);(1,5);(3,5)] /\
+  nth 5 (map snd (cut_all exM 5 3 2 2 true)) (Err "") = Ok [[15;0];[0;0]] /\
+  paste_all 5 3 2 2 (cut_all exM 5 3 2 2 true) = exM.
+Proof. exact ex_roundtrip. Qed.
+Print Assumptions C12_example_roundtrip.
+
+Example C12_example_tiled_full :
+  are_tiled_full [(1,1);(1,3);(3,1);(3,3);(5,1);(5,3)] 2 2 = true /\
+  [(1,1);(1,3);(3,1);(3,3);(5,1);(5,3)] = map swap (grid 5 3 2 2) /\
+  are_tiled_full [(1,1);(3,1);(1,3);(3,3);(5,1);(5,3)] 2 2 = false /\
+  are_tiled_full [(1,1);(1,3);(3,3);(5,1);(5,3)] 2 2 = false /\
+  are_tiled_full [(1,1);(1,3);(3,1);(3,3);(5,1)] 2 2 = false.
+Proof. exact ex_tiled_full. Qed.
+Print Assumptions C12_example_tiled_full.
+
+Example C12_example_iter :
+  map (fun t => match t with (ch, k, o, _) => (ch, k, o) end)
+      (iter_tiled_full 2 2 3 3 2 2 0 0 (V3 1 0 0) (V3 0 1 0) 1 1 1) =
+  [(1,1,(1,1));(1,1,(3,1));(1,1,(1,3));(1,1,(3,3)); (1,2,(1,1));(1,2,(3,1));(1,2,(1,3));(1,2,(3,3));
+   (2,1,(1,1));(2,1,(3,1));(2,1,(1,3));(2,1,(3,3)); (2,2,(1,1));(2,2,(3,1));(2,2,(1,3));(2,2,(3,3))].
+Proof. exact ex_iter. Qed.
+Print Assumptions C12_example_iter.
+
+Example C12_example_dataset :
+  ds_sizes_ok (exD SC_WSI false) /\
+  (exists l, iter_tiled_full_ds (exD SC_WSI false) = Ok l /\ length l = 8%nat) /\
+  (exists l, iter_tiled_full_ds (exD SC_LABELMAP_SEG true) = Ok l /\ map (fun t => fst (fst (fst t))) l = [None; None; None; None]) /\
+  (exists l, iter_tiled_full_ds (exD SC_SEG false) = Ok l /\ length l = 12%nat) /\
+  iter_tiled_full_ds (exD SC_OTHER false) = Err "ValueError"%string.
+Proof. exact ex_ds. Qed.
+Print Assumptions C12_example_dataset.
